@@ -24,7 +24,8 @@ LEVEL_NOTE = "Trusted: icontract's wrapping, the bitmask oracles. Path enumerati
 RULE = ("cases: a graph (PDAG code, random mixed PDAG, or signed weighted DAG) on which every relation is called for every "
         "node / ordered node pair plus disjoint (S,A,B) triples; 'internal' cases drive higher-level routines with the "
         "contracts armed.  distinct = distinct (family, graph); non-trivial = graph has at least one directed and one "
-        "undirected edge, or is a weighted DAG with a negative weight, or has >= 3 edges")
+        "undirected edge, or is a weighted DAG with a negative weight, or has >= 3 edges"
+        ' Also: relabelled embeddings into 9..20 nodes, named shapes, 4,000 sampled p=5 PDAG codes, array presentations incl. the re-used buffer, the transposed view queried right after the graph, numpy-int nodes and frozensets, dense 9-13 node DAGs in int8/uint8/int16/bool for the closure.')
 ASSUMPTIONS = ["inputs outside the quantifier (non-zero diagonal, cyclic directed part) are counted out_of_domain and not judged"]
 EXHAUSTIVE = {"quick": True, "thorough": True}
 SOFT_LIMIT = {"quick": 240, "thorough": 1700}
